@@ -25,6 +25,9 @@ WHAT = {
                             "context is cancelled when executeQuery returns; a losing execution must stop)",
     "retry-decision-not-as-documented": "a shipped retry policy decided differently from its godoc (retried / not retried "
                                         "for this error kind, write type, acknowledgements)",
+    "host-reused-by-parallel-execution": "an execution of the statement attempted a host another execution of the same "
+                                         "statement had already attempted, while an offered usable host was still untried "
+                                         "(the executions must share one plan of the host selection policy)",
     "retry-wrong-host": "a retry did not go where the policy's decision says (Retry: same host, RetryNextHost: "
                         "the next usable host offered by the host selection policy)",
     "retry-without-decision": "a retry was made without asking RetryPolicy.GetRetryType",
